@@ -1,6 +1,6 @@
 \* as-is: delay truncated to whole seconds -> renewal before half the lifetime
 CONSTANTS
-  Lifetimes = {100 * i : i \in 1..100} \cup {1000 * i : i \in 11..60} \cup {1333, 1334, 2001, 2666, 2667, 3999, 4000, 3600000}
+  Lifetimes <- LifetimesQ
   Dev_RenewFloorSeconds = TRUE
   L = 2000
   Step = 500
